@@ -44,9 +44,13 @@ def using_(
             d = reactivex.throw(exception).subscribe(observer, scheduler=scheduler)
             return CompositeDisposable(d, disp)
 
-        return CompositeDisposable(
-            source.subscribe(observer, scheduler=scheduler), disp
-        )
+        try:
+            subscription = source.subscribe(observer, scheduler=scheduler)
+        except Exception:
+            disp.dispose()
+            raise
+
+        return CompositeDisposable(subscription, disp)
 
     return Observable(subscribe)
 
